@@ -182,7 +182,7 @@ func (mAddr *ManagedAddress) VerifScript() []byte { return mAddr.scriptHash }
 //@   loop#1 invariant forall qi_ int :: 0 <= qi_ && qi_ < len(entries) ==> entries[qi_] != nil && len(entries[qi_].Key) == 8
 //@   loop#1 invariant fresh(pks)
 //@   at "pkp := &pubkeyAndPath{..." assert len(key) == 8
-//@   at "pks = append(pks, pkp)" assert[C12] pkp.branch == le32(key, 0) && pkp.index == le32(key, 4) && sameSlice(pkp.pubkeyEnc, entry.Value)
+//@   at "pks = append(pks, pkp)" assert[C12,C03] pkp.branch == le32(key, 0) && pkp.index == le32(key, 4) && sameSlice(pkp.pubkeyEnc, entry.Value)
 
 // ---- C19/C08: representation invariant of the keystore manager -- the keystore in use is one of the managed ones.
 // DeleteKeystore keeps it (the removed keystore is not "in use" afterwards); the in-current lookups rely on it when
